@@ -123,42 +123,42 @@ example : ∃ b : Bin, b.WF ∧ b.len % 8 ≠ 0 ∧ b.start % 8 ≠ 0 :=
 
 /-- `array_member_range : n < 0 ∨ n > 255 → err`: an array whose members before `n` convert is rejected with
     byteRangeError, for every conversion function (unit, keep_range, pad_to_units) -/
-theorem array_member_range (pre post : List Val) (n : Int) (u : Nat) (k : Bool) (p : Int) (bits : Bits)
+theorem array_member_range (pre post : List Val) (n : Int) (r : NumRep) (u : Nat) (k : Bool) (p : Int) (bits : Bits)
     (h : n < 0 ∨ n > 255) (hpre : toBRList pre = .ok bits) :
-    toBitsOp u k p (.arr (pre ++ .num n :: post)) = .error .byteRange := by
-  have hx : toBR true (.num n) = .error .byteRange := by
+    toBitsOp u k p (.arr (pre ++ .num n r :: post)) = .error .byteRange := by
+  have hx : toBR true (.num n r) = .error .byteRange := by
     simp only [toBR, byteBits, if_true]; rw [if_pos (by omega)]
   simp [toBitsOp, toBinary_arr, toBRList_err_at pre post _ _ bits hpre hx, Except.map, bind, Except.bind]
 
 /-- wherever the offending member stands, the conversion fails -/
-theorem array_member_range_any (vs : List Val) (n : Int) (u : Nat) (k : Bool) (p : Int)
-    (h : n < 0 ∨ n > 255) (hm : .num n ∈ vs) :
+theorem array_member_range_any (vs : List Val) (n : Int) (r : NumRep) (u : Nat) (k : Bool) (p : Int)
+    (h : n < 0 ∨ n > 255) (hm : .num n r ∈ vs) :
     ∃ e, toBitsOp u k p (.arr vs) = .error e := by
-  have hx : toBR true (.num n) = .error .byteRange := by
+  have hx : toBR true (.num n r) = .error .byteRange := by
     simp only [toBR, byteBits, if_true]; rw [if_pos (by omega)]
   obtain ⟨e, he⟩ := toBRList_mem_err vs _ _ hm hx
   exact ⟨e, by simp [toBitsOp, toBinary_arr, he, Except.map, bind, Except.bind]⟩
 
 /-- the same inside nested arrays (`toBitReaderEx(e, true)` recurses with inArray = true) -/
-theorem array_member_range_nested (pre post : List Val) (n : Int) (bits : Bits) (ia : Bool)
+theorem array_member_range_nested (pre post : List Val) (n : Int) (r : NumRep) (bits : Bits) (ia : Bool)
     (h : n < 0 ∨ n > 255) (hpre : toBRList pre = .ok bits) :
-    toBR ia (.arr (pre ++ .num n :: post)) = .error .byteRange := by
-  have hx : toBR true (.num n) = .error .byteRange := by
+    toBR ia (.arr (pre ++ .num n r :: post)) = .error .byteRange := by
+  have hx : toBR true (.num n r) = .error .byteRange := by
     simp only [toBR, byteBits, if_true]; rw [if_pos (by omega)]
   rw [toBR_arr, toBRList_err_at pre post _ _ bits hpre hx]
 
 /-- in range members are accepted: one byte each -/
-theorem array_member_ok (n : Int) (h0 : 0 ≤ n) (h1 : n ≤ 255) : toBR true (.num n) = .ok (toBitsBE 8 n.toNat) := by
+theorem array_member_ok (n : Int) (r : NumRep) (h0 : 0 ≤ n) (h1 : n ≤ 255) : toBR true (.num n r) = .ok (toBitsBE 8 n.toNat) := by
   simp only [toBR, byteBits, if_true]; rw [if_neg (by omega)]
 
 example : ∃ (pre : List Val) (bits : Bits), toBRList pre = .ok bits ∧ pre.length = 2 :=
-  ⟨[.num 1, .str [0x61]], _, rfl, rfl⟩
+  ⟨[.num 1 .int, .str [0x61]], _, rfl, rfl⟩
 
 /-! ## core 4: number_roundtrip -/
 
 /-- `number_roundtrip : n ≥ 0 → toNumber (tobits n) = n` (through the expression evaluator) -/
 theorem number_roundtrip (n : Int) (hn : 0 ≤ n) :
-    eval (.toNumber (.toBits 1 false 0 (.int n))) = .ok (.num n) := by
+    eval (.toNumber (.toBits 1 false 0 (.int n))) = .ok (.num n .big) := by
   simp only [eval, toBitsOp, toBinary, toBR, numBits_eq, bind, Except.bind, pure, Except.pure, Bool.false_eq_true, if_false]
   simp only [Int.mul_zero, if_true, Int.tmod_one, toReaderBits, newBin, rangeBits_self, bind, Except.bind, pure, Except.pure,
     Int.natCast_one, Int.sub_zero, onBin]
@@ -174,8 +174,8 @@ theorem number_roundtrip (n : Int) (hn : 0 ≤ n) :
   · rw [ofBitsBE_toBitsBE, Nat.mod_eq_of_lt (lt_two_pow_bitLen _)]; omega
 
 /-- the bits of a number are minimal: `bitLen |n|` bits (one bit for 0), i.e. no leading zero -/
-theorem number_bits_minimal (n : Int) (h : n ≠ 0) :
-    ∃ bits, toBR false (.num n) = .ok bits ∧ bits.length = bitLen n.natAbs ∧ bits.head? = some true
+theorem number_bits_minimal (n : Int) (r : NumRep) (h : n ≠ 0) :
+    ∃ bits, toBR false (.num n r) = .ok bits ∧ bits.length = bitLen n.natAbs ∧ bits.head? = some true
       ∧ ofBitsBE bits = n.natAbs := by
   have ha : n.natAbs ≠ 0 := by omega
   refine ⟨toBitsBE (bitLen n.natAbs) n.natAbs, ?_, toBitsBE_length _ _, ?_, ?_⟩
@@ -196,8 +196,8 @@ theorem number_bits_minimal (n : Int) (h : n ≠ 0) :
 
 /-- `0` is ONE zero bit (binary.go:82-85), the sign of a negative number is dropped (quirk kept) -/
 theorem number_zero_and_sign :
-    toBR false (.num 0) = .ok [false] ∧ ∀ n : Int, toBR false (.num (-n)) = toBR false (.num n) := by
-  refine ⟨by simp [toBR, numBits_eq], fun n => ?_⟩
+    (∀ r, toBR false (.num 0 r) = .ok [false]) ∧ ∀ (n : Int) (r r' : NumRep), toBR false (.num (-n) r) = toBR false (.num n r') := by
+  refine ⟨fun r => by simp [toBR, numBits_eq], fun n r r' => ?_⟩
   simp only [toBR, Bool.false_eq_true, if_false, numBits_eq, Int.natAbs_neg]
 
 /-! ## stretch: the remaining laws -/
@@ -238,7 +238,7 @@ example : ∃ (b : Bin) (i : Nat), i < b.length ∧ b.len % b.unit ≠ 0 :=
     for a unit-aligned range `stop = start + size` -/
 theorem size_start_stop (b : Bin) (hu : 0 < b.unit) :
     ∃ size start stop : Nat,
-      b.key .size = .num size ∧ b.key .start = .num start ∧ b.key .stop = .num stop ∧
+      b.key .size = .num size .big ∧ b.key .start = .num start .big ∧ b.key .stop = .num stop .big ∧
       size = b.length ∧
       size * b.unit ≤ b.len ∧ b.len < (size + 1) * b.unit ∧
       start * b.unit ≤ b.start ∧ b.start < (start + 1) * b.unit ∧
@@ -304,19 +304,19 @@ example : ∃ (b : Bin) (a c a' c' : Nat), 0 < b.unit ∧ a ≤ c ∧ c ≤ b.le
 
 /-- `explode`: the list of the `length b` unit-sized big-endian numbers of the range, in order -/
 theorem explode_eq (b : Bin) (hw : b.WF) :
-    b.explode = .ok (.arr ((List.range b.length).map fun k => .num (ofBitsBE (slice b.src (b.start + k * b.unit) b.unit)))) := by
+    b.explode = .ok (.arr ((List.range b.length).map fun k => .num (ofBitsBE (slice b.src (b.start + k * b.unit) b.unit)) .big)) := by
   simp only [Bin.explode, bind, Except.bind, pure, Except.pure]
   have := mapM_ok (List.range (b.len / b.unit)) (fun (k : Nat) => b.index (k : Int))
-    (fun k => Val.num (ofBitsBE (slice b.src (b.start + k * b.unit) b.unit)))
+    (fun k => Val.num (ofBitsBE (slice b.src (b.start + k * b.unit) b.unit)) .big)
     (fun k hk => index_in_range b k (by simpa [Bin.length] using hk) hw)
   rw [this]; rfl
 
 theorem explode_bytes (b : Bin) (hw : b.WF) (hu : b.unit = 8) :
-    b.explode = .ok (.arr ((List.range (b.len / 8)).map fun k => .num (ofBitsBE (slice b.src (b.start + k * 8) 8)))) := by
+    b.explode = .ok (.arr ((List.range (b.len / 8)).map fun k => .num (ofBitsBE (slice b.src (b.start + k * 8) 8)) .big)) := by
   rw [explode_eq b hw, Bin.length, hu]
 
 theorem explode_bits (b : Bin) (hw : b.WF) (hu : b.unit = 1) :
-    b.explode = .ok (.arr ((List.range b.len).map fun k => .num (ofBitsBE (slice b.src (b.start + k) 1)))) := by
+    b.explode = .ok (.arr ((List.range b.len).map fun k => .num (ofBitsBE (slice b.src (b.start + k) 1)) .big)) := by
   rw [explode_eq b hw, Bin.length, hu]
   simp
 
@@ -404,7 +404,7 @@ theorem eval_wf : ∀ (e : E), E.DvWF e → ∀ v, eval e = .ok v → Val.AllWF 
     | ok v0 =>
       simp only [he] at h
       obtain ⟨b, rfl, hb⟩ := onBin_ok v0 _ v h
-      rcases index_val b i v hb with rfl | ⟨n, rfl⟩ <;> simp [Val.AllWF]
+      rcases index_val b i v hb with rfl | ⟨n, r, rfl⟩ <;> simp [Val.AllWF]
   | .slice s t e, hd, v, h => by
     simp only [eval] at h
     cases he : eval e with
@@ -478,6 +478,12 @@ theorem eval_wf : ∀ (e : E), E.DvWF e → ∀ v, eval e = .ok v → Val.AllWF 
       simp only [toHexOp, bind, Except.bind, pure, Except.pure] at h
       split at h <;> simp at h
       subst h; simp [Val.AllWF]
+  | .sub k e, hd, v, h => by
+    simp only [eval] at h
+    split at h <;> simp at h
+    subst h
+    simp only [subNum]
+    split <;> (try split) <;> simp [Val.AllWF]
 theorem evalList_wf : ∀ (es : List E), E.DvWFList es → ∀ vs, evalList es = .ok vs → Val.AllWFList vs
   | [], _, vs, h => by simp [evalList] at h; subst h; simp [Val.AllWFList]
   | e :: es, hd, vs, h => by
